@@ -300,6 +300,33 @@ func (r *Runner) build(i *inst) error {
 		return err
 	}
 	i.el = el
+	if !is.LateCallbacks {
+		r.register(i)
+	}
+	if is.Conn {
+		i.connQ = make(chan string, 64)
+		r.acts.Add(1)
+		go func() {
+			defer r.acts.Done()
+			for {
+				select {
+				case <-r.quit:
+					return
+				case ev := <-i.connQ:
+					r.fireConn(i, ev)
+				}
+			}
+		}()
+	}
+	return nil
+}
+
+// register installs the recording callbacks (at build time, or later through the
+// "register" action for instances with LateCallbacks).
+func (r *Runner) register(i *inst) {
+	is := i.spec
+	el := i.el
+	r.add(Event{Kind: "callbacks.registered", Inst: is.Name})
 	el.OnPromote(func(ctx context.Context, token string) {
 		// (the entry is reported first: nothing slow before it)
 		id := int(r.ctxSeq.Add(1))
@@ -332,22 +359,6 @@ func (r *Runner) build(i *inst) error {
 		}
 		r.add(Event{Kind: "cb.demote.return", Inst: is.Name})
 	})
-	if is.Conn {
-		i.connQ = make(chan string, 64)
-		r.acts.Add(1)
-		go func() {
-			defer r.acts.Done()
-			for {
-				select {
-				case <-r.quit:
-					return
-				case ev := <-i.connQ:
-					r.fireConn(i, ev)
-				}
-			}
-		}()
-	}
-	return nil
 }
 
 func (r *Runner) fireConn(i *inst, ev string) {
@@ -689,7 +700,9 @@ func (r *Runner) act(a *Action) {
 	case "sample":
 		r.sample("action")
 	case "register":
-		// re-register the same callbacks (exercise registration under load)
+		if i != nil && i.el != nil {
+			r.register(i)
+		}
 	}
 }
 
